@@ -42,7 +42,7 @@ CHECKS = {
     'C19': dict(
         level='exploration',
         units=[U('^TestC19$', (8, 15000), (16, 150000))],
-        essential_labels=['kind:log', 'kind:linear', 'kind:cubic', 'non-default-offset', 'pair:cross-kind', 'pair:near-alpha', 'pair:offset', 'pair:offset-near-tolerance', 'sequence-of-reads'],
+        essential_labels=['kind:log', 'kind:linear', 'kind:cubic', 'non-default-offset', 'pair:cross-kind', 'pair:near-alpha', 'pair:offset', 'pair:offset-near-tolerance', 'pair:tolerance-boundary', 'sequence-of-reads'],
         assumptions=COMMON_ASSUMPTIONS + ["refdec reads kind/gamma/offset from the binary block independently of the repository's decoder"],
     ),
     'C20': dict(
@@ -83,8 +83,8 @@ CHECKS = {
     ),
     'C07': dict(
         level='exploration',
-        units=[U('^TestC07_EncoderConforms$', (4, 6000), (6, 40000)), U('^TestC07_DecoderAcceptsGrammar$', (8, 3000), (9, 20000)), U('^TestC07_FarIndexes$', (2, 3000), (1, 100000)), F('FuzzC07Grammar', 120)],
-        essential_labels=['direction:A', 'direction:B', 'direction:C', 'layout:1', 'layout:2', 'layout:3', 'stride:negative', 'stride:zero', 'stride:large', 'repeated-index', 'N=0-block', 'repeated-mapping-block', 'mapping-between-bins', 'mapping-after-bins', 'exact-decoder', 'target:paginated', 'target:collow', 'multi-layout', 'producer:exact-variant', 'index-delta-beyond-int32', 'deltas-block-after-many-unit-bins', 'encoding-after-weights-underflowed-to-zero'],
+        units=[U('^TestC07_EncoderConforms$', (4, 6000), (6, 40000)), U('^TestC07_DecoderAcceptsGrammar$', (8, 3000), (9, 20000)), U('^TestC07_FarIndexes$', (2, 3000), (1, 100000)), U('^TestC07_PlainDecodesExactLongCount$', (2, 5000), (2, 100000)), F('FuzzC07Grammar', 120)],
+        essential_labels=['direction:A', 'direction:B', 'direction:C', 'layout:1', 'layout:2', 'layout:3', 'stride:negative', 'stride:zero', 'stride:large', 'repeated-index', 'N=0-block', 'repeated-mapping-block', 'mapping-between-bins', 'mapping-after-bins', 'exact-decoder', 'target:paginated', 'target:collow', 'multi-layout', 'producer:exact-variant', 'index-delta-beyond-int32', 'deltas-block-after-many-unit-bins', 'encoding-after-weights-underflowed-to-zero', 'count-block:9-bytes', 'count-block:9th-byte-top-bit'],
         assumptions=COMMON_ASSUMPTIONS + ["harness/refdec is the reading of the format documentation the streams are generated from and compared with", "indexes in generated streams are indexes of the mapping (between those of its smallest and largest indexable values) and stay within a memory-bounded cluster"],
     ),
     'C08': dict(
@@ -102,7 +102,7 @@ CHECKS = {
     'C10': dict(
         level='exploration',
         units=[U('^TestC10$', (12, 1000, 50), (14, 8000, 80)), U('^TestC10_LongChains$', (3, 60), (2, 1500))],
-        essential_labels=['op:add', 'op:bad', 'op:badmerge', 'op:merge', 'op:decmerge', 'op:copy', 'op:clear', 'op:reweight', 'op:encdec', 'op:changemapping', 'op:fromdata', 'long-chain:absorb-merge', 'long-chain:random-merge', 'long-chain:absorb-add', 'long-chain:decode-merge', 'rejected-add', 'zero-weight-add', 'non-dyadic-phase', 'store:dense', 'store:sparse', 'store:paginated'],
+        essential_labels=['op:add', 'op:bad', 'op:badmerge', 'op:merge', 'op:decmerge', 'op:copy', 'op:clear', 'op:reweight', 'op:encdec', 'op:changemapping', 'op:fromdata', 'long-chain:absorb-merge', 'long-chain:random-merge', 'long-chain:absorb-add', 'long-chain:decode-merge', 'long-chain:copies', 'rejected-add', 'zero-weight-add', 'non-dyadic-phase', 'store:dense', 'store:sparse', 'store:paginated'],
         assumptions=COMMON_ASSUMPTIONS + ["sum bound (8+2k)*2^-52*sum|v*w| plus a few subnormal ulps, k = number of reweight/rescale/decode/merge steps (DESIGN §2 C10)", "after a ChangeMapping nothing is compared with == (bin weights are no longer dyadic)", "values within [1e-50,1e50] so that unit changes keep them far inside every mapping's range"],
     ),
     'C11': dict(
@@ -120,7 +120,7 @@ CHECKS = {
     'C13': dict(
         level='exploration',
         units=[U('^TestC13$', (8, 12000), (16, 100000)), U('^TestC13_DegenerateRange$', (2, 5000), (2, 100000))],
-        essential_labels=['refused-add', 'refused-quantile', 'refused-merge', 'refused-reweight', 'refused-reweight-store-level', 'refused-constructor', 'accept-at-boundary', 'state:empty', 'state:non-empty', 'variant:exact', 'variant:plain', 'mismatch:kind', 'mismatch:alpha', 'mismatch:offset', 'near-equal-mapping-decoded', 'degenerate-range', 'range:empty'],
+        essential_labels=['refused-add', 'refused-quantile', 'refused-merge', 'refused-reweight', 'refused-reweight-store-level', 'refused-constructor', 'accept-at-boundary', 'state:empty', 'state:non-empty', 'variant:exact', 'variant:plain', 'mismatch:kind', 'mismatch:alpha', 'mismatch:offset', 'mismatch:base', 'near-equal-mapping-decoded', 'degenerate-range', 'range:empty'],
         assumptions=COMMON_ASSUMPTIONS + ["NaN weights/factors/constructor parameters are outside the property"],
     ),
     'C14': dict(
